@@ -23,6 +23,7 @@ RULE = ('every boolean table of every shape n x m with n*m <= B (quick B=12, tho
 ASSUMPTIONS = ['R1 (mc/refmodel.py) implements the textbook definitions; its three concept '
                'enumerations are cross-checked on every table',
                'labels are opaque strings; two labelings (ascending/descending) are explored']
+HITS = ('hit_all_cross','hit_nonempty_bottom')
 BUDGET = {'quick': 240, 'thorough': 3000}
 
 
